@@ -16,8 +16,9 @@ type Fact struct {
 }
 
 // Cond is a normalised condition known to HOLD.
-//   Op != ILLEGAL: comparison X Op Y holds.
-//   Op == ILLEGAL: boolean value X has truth value Truth.
+//
+//	Op != ILLEGAL: comparison X Op Y holds.
+//	Op == ILLEGAL: boolean value X has truth value Truth.
 type Cond struct {
 	Op    token.Token
 	X, Y  ssa.Value
